@@ -374,7 +374,7 @@ def r19n(ctx):
     coordinate tuple of a row call is never re-assigned (its only stores are the unpacking and a constant-None default).
     """
     repo = ctx.repo
-    ctx.rule("R19n", "column bounds passed from a Table reader to its rows are the translated coordinates, never re-assigned in between", floor=4)
+    ctx.rule("R19n", "column bounds passed from a Table reader to its rows are the translated coordinates, never re-assigned in between", floor=2)
     t = repo.cls("Table")
     n = 0
     for name, fs in sorted(t.methods.items()):
@@ -410,5 +410,5 @@ def r19n(ctx):
                     ctx.report("R19n", f, other[0], norm(other[0], 50),
                                f"{f.ident} re-assigns the translated bound (`{norm(other[0], 50)}`) before handing it to `{norm(call, 40)}`: this reader then resolves the "
                                f"coordinate to other cells than its siblings — e.g. a range clipped to the declared width loses the right end of rows that are wider")
-    if n < 4:
+    if n < 2:
         raise AnalysisError(f"R19n: only {n} translated bound(s) passed on to a row call found")
